@@ -104,4 +104,50 @@ AlgCreate(keys, names, name0, sp) ==
                 sem |-> Sem(e.spec), keys |-> keys, names |-> names]
      ELSE IF name \in names THEN [out |-> "raise", why |-> "name-clash", dev |-> "-", sem |-> Sem(sp), keys |-> keys, names |-> names]       \* add_type :349-350
      ELSE [out |-> "new", why |-> "-", dev |-> "-", sem |-> Sem(sp), keys |-> keys \cup {[key |-> key, name |-> name, spec |-> sp]}, names |-> names \cup {name}]
+
+\* ------------------------------------------------------------------ machine "alias" (round 4b)
+\* ALIASING between a created type and the ARGUMENTS it was created from.  The caller owns a list `bounds` of
+\* restrictions, creates a type from it (restricted_number_type(name, int, bounds)), MUTATES the list afterwards
+\* (bounds.append(("<=", r+1)); bounds.clear(); bounds[0] = (">", r)) and possibly creates a second type from it.
+\*   content = the current value of the caller's list: a sequence of <<op, offset>> (reference = r + offset)
+\*   a type  = [name, cont]: cont is the VALUE of the list at the moment of the creation, never a reference
+\* Ref: a type keeps accepting exactly what the content it was created from accepts, whatever happens to the list
+\* later, on every channel; its expression text and its registry key keep describing that content (so the same content
+\* under the same name is still "the already registered type", and a mutated content is a different specification).
+\* Alg: typing.py:141 builds the key as a new tuple (tuple(sorted(restrictions))) and :143 the _restrictions attribute
+\* as a new list ([( _operators2[x[0]], x[1]) for x in restrictions]); :144 renders the expression once.  Nothing the
+\* class holds is the caller's list.
+AContent0 == << <<">=", 0>> >>
+AProbes == <<IntV(0 - 1), IntV(0), IntV(1), IntV(2)>>
+ANType(cont) == NType("int", [q \in 1..Len(cont) |-> <<cont[q][1], Fin(cont[q][2], 1)>>], "and")
+ASem(cont) == [q \in 1..4 |-> RefAccepts(ANType(cont), AProbes[q])]
+AKey(cont) == {cont[q] : q \in 1..Len(cont)}                                \* tuple(sorted(...)): the order of the list does not matter
+AMutations == {"append", "clear", "set0"}
+AMutEnabled(cont, how) == CASE how = "append" -> (Len(cont) < 2 /\ <<"<=", 1>> \notin AKey(cont))
+                            [] how = "clear"  -> cont # << >>
+                            [] how = "set0"   -> (cont # << >> /\ <<">", 0>> \notin AKey(cont))
+AMutate(cont, how) == CASE how = "append" -> Append(cont, <<"<=", 1>>)
+                        [] how = "clear"  -> << >>
+                        [] how = "set0"   -> [cont EXCEPT ![1] = <<">", 0>>]
+\* Ref.  atypes = set of [name, cont]
+RefCreateA(atypes, name, cont) ==
+  IF \E ty \in atypes : AKey(ty.cont) = AKey(cont) /\ ty.name = name THEN {"existing"}
+  ELSE IF \E ty \in atypes : AKey(ty.cont) = AKey(cont) THEN {"raise"}
+  ELSE {"raise", "new"}
+RefProbeA(atypes, name) == (CHOOSE ty \in atypes : ty.name = name).cont      \* the content the type must still stand for
+\* Alg.  akeysA = registered_types restricted to this behaviour: set of [key, name, cont] with cont the list built at :143
+AlgCreateA(keysA, namesA, name, cont) ==
+  LET key == AKey(cont)                                                                        \* :141 a new tuple
+      hit == {e \in keysA : e.key = key}
+  IN IF hit # {}
+     THEN LET e == CHOOSE e \in hit : TRUE IN
+          IF e.name # name THEN [out |-> "raise", why |-> "different-name", cont |-> cont, keys |-> keysA, names |-> namesA]      \* :85-86
+          ELSE [out |-> "existing", why |-> "-", cont |-> e.cont, keys |-> keysA, names |-> namesA]                              \* :87
+     ELSE IF name \in namesA THEN [out |-> "raise", why |-> "name-clash", cont |-> cont, keys |-> keysA, names |-> namesA]       \* add_type :349-350
+     ELSE [out |-> "new", why |-> "-", cont |-> cont,                                                                          \* :143 a new list: the VALUE
+           keys |-> keysA \cup {[key |-> key, name |-> name, cont |-> cont]}, names |-> namesA \cup {name}]
+AlgProbeA(keysA, name) == (CHOOSE e \in keysA : e.name = name).cont
+\* the what-if transcription in which the class keeps the caller's list itself (used by MC_Registry_aliascex.cfg to show
+\* that the instance distinguishes the two): the type stands for whatever the list holds NOW
+AliasedProbeA(keysA, name, cur) == cur
 =============================================================================
